@@ -121,6 +121,11 @@ def pytree_cases(quick):
                         leaves[bad] = ["fault", [2], "float32", attr, fail_at, exc]
                         for st in (None, "T"):
                             cases.append((["pytree", ["arr", "a", "Float", "Any"], st], shapes[n](leaves), f"fault-{attr}-{exc}-{fail_at}-leaf{bad}of{n}"))
+                        if fail_at in (2, 4):
+                            # the same with a value that cannot even be printed (its __repr__ raises too)
+                            l2 = list(leaves)
+                            l2[bad] = ["fault", [2], "float32", attr, fail_at, exc, True]
+                            cases.append((["pytree", ["arr", "a", "Float", "Any"], "T"], shapes[n](l2), f"fault-unprintable-{attr}-{exc}-{fail_at}-leaf{bad}of{n}"))
     if quick:
         cases = [c for i, c in enumerate(cases) if i % 2 == 0 or "fault" in c[2]]
     return cases
@@ -154,6 +159,13 @@ def extra_cases(quick):
             out.append((["arr", d, "Float", "np"], ["np", list(sh), "int32"], "np-wrong-dtype"))
             out.append((["arr", d, "Float", "np"], ["np", list(sh), "float32"], "np-right-dtype"))
             out.append((["arr", d, "Float", "np"], ["duck", list(sh)], "np-wrong-class"))
+    for d in ("b a", "a b c", "a *v 2", "#b a"):
+        for sh in shapes:
+            out.append((["arr", d], ["duck", list(sh)], "copied-context"))
+    for t in (["tuple", [["duck", [2]], ["duck", [3]]]], ["tuple", [["duck", [2]], ["duck", [2]], ["lit", "x"]]], ["list", [["duck", [5, 2]], ["duck", [5, 3]]]]):
+        for L in (["arr", "a"], ["arr", "b ?m"], ["arr", "*w a"]):
+            for st in (None, "T"):
+                out.append((["pytree", L, st], t, "copied-context-pytree"))
     outers = ["2", "_", "...", "3 2", "a+1", "b", "#b 2", "*v"]
     inners = ["a 3", "a b", "a", "*v a", "a c+1", "b a"]
     nshapes = [(2, 2, 3), (2, 3, 3), (2, 5, 3), (3, 2, 5, 3), (2, 3), (2, 5), (3, 3), (2, 2), (5,), (3,), (2, 2, 2, 3)]
@@ -231,7 +243,14 @@ def _shard(job):
                     bbat = _probe_battery(adapter, Float, Duck)
                     exc_cls = None
                     try:
-                        got = bool(isinstance(val, ann))
+                        if label.startswith("copied-context"):
+                            # the check runs in a COPY of the current contextvars context
+                            # (copy_context().run, asyncio tasks, to_thread ...)
+                            import contextvars
+
+                            got = bool(contextvars.copy_context().run(isinstance, val, ann))
+                        else:
+                            got = bool(isinstance(val, ann))
                     except jaxtyping.AnnotationError:
                         got = "AnnotationError"
                     except BaseException as e:  # noqa: BLE001 - injected faults incl. BaseException
